@@ -1,4 +1,4 @@
-(* C01 — lemmas. *)
+(* C01 — lemmas, part 1: little-endian fields, block headers, ReadDocBlock. *)
 From Coq Require Import List Bool Arith NArith Lia.
 From C01 Require Import Model.
 Import ListNotations.
@@ -6,7 +6,99 @@ Open Scope nat_scope.
 
 Lemma le_roundtrip : forall n x, le_dec (le_enc n x) = x.
 Proof.
-  induction n; intros x; simpl.
+  induction n; intros x; cbn [le_enc le_dec].
   - lia.
-  - rewrite IHn. pose proof (N.div_mod x 256). lia.
+  - rewrite IHn. pose proof (N.div_mod x 256 ltac:(lia)). lia.
 Qed.
+
+Lemma le_enc_length : forall n x, length (le_enc n x) = S n.
+Proof. induction n; intros; simpl; auto. Qed.
+
+Lemma nlen_to_nat : forall A (l : list A), N.to_nat (nlen l) = length l.
+Proof. intros. unfold nlen. apply Nat2N.id. Qed.
+
+(* ---------- list helpers ---------- *)
+
+Lemma skipn_app_len : forall A (a b : list A), skipn (length a) (a ++ b) = b.
+Proof. induction a; simpl; auto. Qed.
+
+Lemma firstn_app_len : forall A (a b : list A), firstn (length a) (a ++ b) = a.
+Proof. induction a; simpl; intros; auto. f_equal. apply IHa. Qed.
+
+Lemma firstn_ge : forall A n (l : list A), length l <= n -> firstn n l = l.
+Proof. intros. apply firstn_all2. lia. Qed.
+
+Lemma firstn_app_ge : forall A n (a b : list A), length a <= n ->
+  firstn n (a ++ b) = a ++ firstn (n - length a) b.
+Proof. intros. rewrite firstn_app. rewrite firstn_ge by lia. reflexivity. Qed.
+
+Lemma firstn_plus_app : forall A n (a b : list A),
+  firstn (length a + n) (a ++ b) = a ++ firstn n b.
+Proof. intros. rewrite firstn_app_ge by lia. f_equal. f_equal. lia. Qed.
+
+(* ---------- header ---------- *)
+
+Lemma hdr_length : forall len raw e1 e2, length (hdr len raw e1 e2) = HDR.
+Proof. intros. reflexivity. Qed.
+
+Lemma hdr_len_hdr : forall len raw e1 e2, hdr_len (hdr len raw e1 e2) = len.
+Proof. intros. exact (le_roundtrip 7 len). Qed.
+
+Lemma block_length : forall pay raw e1 e2, length (block pay raw e1 e2) = HDR + length pay.
+Proof. intros. unfold block. rewrite app_length, hdr_length. reflexivity. Qed.
+
+Lemma hdr_ext1_block : forall pay raw e1 e2, hdr_ext1 (block pay raw e1 e2) = e1.
+Proof. intros. exact (le_roundtrip 7 e1). Qed.
+
+Lemma payload_block : forall pay raw e1 e2, payload (block pay raw e1 e2) = pay.
+Proof. intros. reflexivity. Qed.
+
+Lemma firstn_hdr_block : forall pay raw e1 e2 rest,
+  firstn HDR (block pay raw e1 e2 ++ rest) = hdr (nlen pay) raw e1 e2.
+Proof.
+  intros. unfold block. rewrite <- app_assoc.
+  rewrite <- (hdr_length (nlen pay) raw e1 e2) at 1. apply firstn_app_len.
+Qed.
+
+(* ---------- ReadDocBlock ---------- *)
+
+(* a complete block at its boundary is returned whole, whatever follows *)
+Lemma read_block_ok : forall pre pay raw e1 e2 rest,
+  read_doc_block (pre ++ block pay raw e1 e2 ++ rest) (length pre) = RdOk (block pay raw e1 e2).
+Proof.
+  intros. unfold read_doc_block, read_at. rewrite skipn_app_len.
+  rewrite firstn_hdr_block. rewrite hdr_length. rewrite Nat.ltb_irrefl.
+  rewrite hdr_len_hdr.
+  assert (Hfull : N.to_nat (nlen pay + 33) = length (block pay raw e1 e2)).
+  { rewrite block_length. rewrite N2Nat.inj_add, nlen_to_nat. unfold HDR. simpl. lia. }
+  replace (nlen (block pay raw e1 e2 ++ rest) <? nlen pay + 33)%N with false.
+  - rewrite Hfull. rewrite firstn_app_len. reflexivity.
+  - symmetry. apply N.ltb_ge. unfold nlen. rewrite app_length, block_length. unfold HDR. lia.
+Qed.
+
+(* lem:hdr_prefix_eof — a strict prefix of a block is reported as EOF *)
+Lemma read_block_prefix_eof : forall pre pay raw e1 e2 c,
+  c < length (block pay raw e1 e2) ->
+  read_doc_block (pre ++ firstn c (block pay raw e1 e2)) (length pre) = RdEOF.
+Proof.
+  intros pre pay raw e1 e2 c Hc. unfold read_doc_block, read_at. rewrite skipn_app_len.
+  destruct (Nat.lt_ge_cases c HDR) as [Hlt | Hge].
+  - replace (length (firstn HDR (firstn c (block pay raw e1 e2))) <? HDR) with true; auto.
+    symmetry. apply Nat.ltb_lt. rewrite firstn_length, firstn_length. lia.
+  - rewrite firstn_firstn. replace (Nat.min HDR c) with HDR by lia.
+    pose proof (firstn_hdr_block pay raw e1 e2 []) as Hh. rewrite app_nil_r in Hh. rewrite Hh.
+    rewrite hdr_length, Nat.ltb_irrefl, hdr_len_hdr.
+    replace (nlen (firstn c (block pay raw e1 e2)) <? nlen pay + 33)%N with true; auto.
+    symmetry. apply N.ltb_lt. unfold nlen. rewrite firstn_length.
+    rewrite block_length in Hc. unfold HDR in *. lia.
+Qed.
+
+Definition eof_tail (tm : list N) : Prop :=
+  forall pre, read_doc_block (pre ++ tm) (length pre) = RdEOF.
+
+Lemma eof_tail_nil : eof_tail [].
+Proof. intro pre. unfold read_doc_block, read_at. rewrite skipn_app_len. reflexivity. Qed.
+
+Lemma eof_tail_prefix : forall pay raw e1 e2 c,
+  c < length (block pay raw e1 e2) -> eof_tail (firstn c (block pay raw e1 e2)).
+Proof. intros; intro pre. apply read_block_prefix_eof; auto. Qed.
